@@ -19,8 +19,8 @@ var stubOrder = []string{"Go map iteration order -> seeded permutation at every 
 var specs = map[string]Spec{
 	"C18": {
 		Prop: "C18", Engine: "wire-world", Level: "exploration", Binary: "root", Corpus: true, Race: true,
-		Quick:    Tier{Count: 90000, BudgetS: 40},
-		Thorough: Tier{Count: 12000000, BudgetS: 900, RaceCount: 160000},
+		Quick:    Tier{Count: 90000, BudgetS: 40, RandomSchemas: 8},
+		Thorough: Tier{Count: 12000000, BudgetS: 900, RaceCount: 160000, RandomSchemas: 24},
 		Rule: "three run kinds drawn from the seed, each a set of simulated caller tasks under a seeded scheduler (run-to-completion, random walk with switch probability 0.1/0.3/0.6, PCT-style priorities; optional statement-level preemption inside internal/frame, internal/concurrent, internal/plugin): (codec) 2-8 (thorough 2-24) tasks each performing one of Encode, Decode+force, EncodeEnveloped, DecodeEnveloped, ReadRequest+WriteResponse and the four generated-code paths on its own random value through simulated readers/writers that yield at every call, over simulated sync.Pools whose reuse order, drops and New calls are choices, compared with the same operation executed alone; pool invariants (no double Put, no write between Put and the next Get) checked at every call; (frame) 2-8 client tasks x 1-3 Sends with unique payloads on one frame.Client over simulated pipes to a frame.Server task answering payload+counter, optionally exiting mid-run: every caller gets its own payload, and the history stamped with global event sequence numbers is linearizable (porcupine) against 'state = requests served'; (fanout) MultiServiceGenerator.Generate / MultiHandle.Close / concurrent.Range over 1-6 in-process generators that yield inside their calls, return disjoint or colliding file sets and fail at chosen indexes: exact union on success, collision reported, every injected error present, each element visited once. Thorough adds the race tier: the same runs in a -race build whose scheduler hands the baton over through raw pipe syscalls the detector cannot see. " +
 			"Every run is non-trivial; distinct = distinct choice lists.",
 		RealComp: append([]string{"internal/frame (Client, Server, Reader, Writer)", "internal/concurrent", "internal/plugin (MultiServiceGenerator, MultiHandle)"}, realWire...), StubComp: stubWire,
@@ -61,9 +61,9 @@ var specs = map[string]Spec{
 	},
 	"C04": {
 		Prop: "C04", Engine: "wire-world", Level: "exploration", Binary: "root", Corpus: true,
-		Quick:    Tier{Count: 320000, BudgetS: 40},
-		Thorough: Tier{Count: 32000000, BudgetS: 900},
-		Rule: "one run = one struct-like type of the regenerated corpus (all types of gen/internal/tests/thrift, plugin/api.thrift and verif/schemas, regenerated from the tree's own templates) and either (deserialization) a byte string - the encoding of a valid Go value built by reflection, optionally put through 1-3 schema-evolution edits on the value tree (add / retype / drop / duplicate / renumber field, change a container's element type, recursively) or 1-3 byte-level mutations - run through FromWire(Decode(b)) and through T.Decode(stream reader) under 4 (thorough 8) seeded delivery schedules incl. truncation and I/O errors; or (serialization) a Go value, valid or damaged (required pointer nil, extra union member, nil element in a container, nil container), run through Encode(stream writer) and through ToWire+Encode. " +
+		Quick:    Tier{Count: 320000, BudgetS: 40, RandomSchemas: 8},
+		Thorough: Tier{Count: 32000000, BudgetS: 900, RandomSchemas: 24},
+		Rule: "one run = one struct-like type of the regenerated corpus (all types of gen/internal/tests/thrift and plugin/api.thrift plus 8 (thorough 24) random programs drawn from VERIF_SEED by the harness's program generator - structs, unions, exceptions, typedef chains, enums, containers, defaults, service argument and result structs - all regenerated from the tree's own templates; a package that does not compile is dropped and listed) and either (deserialization) a byte string - the encoding of a valid Go value built by reflection, optionally put through 1-3 schema-evolution edits on the value tree (add / retype / drop / duplicate / renumber field, change a container's element type, recursively) or 1-3 byte-level mutations - run through FromWire(Decode(b)) and through T.Decode(stream reader) under 4 (thorough 8) seeded delivery schedules incl. truncation and I/O errors; or (serialization) a Go value, valid or damaged (required pointer nil, extra union member, nil element in a container, nil container), run through Encode(stream writer) and through ToWire+Encode. " +
 			"Every run is non-trivial; distinct = distinct choice lists. Per-type hit counts are in coverage.counts.",
 		RealComp: realWire, StubComp: stubWire,
 		Assume: []string{"declared container counts above 32768 in mutated inputs are capped by the harness so that the pre-sizing weakness described by C13 cannot exhaust memory here; nothing about it is reported",
